@@ -54,6 +54,7 @@ type simConn struct {
 	ident    bool   // handshake completed successfully (client view)
 
 	delivered int // number of requests delivered so far
+	tnChecked bool // timeout-now request on this connection already checked by the transfer oracle
 }
 
 func (c *simConn) key() string { return fmt.Sprintf("%d>%d#%d", c.cli, c.srv, c.seq) }
